@@ -4,6 +4,7 @@ package main
 // visible), permissive havoc, returns.
 
 import (
+	"os"
 	"fmt"
 	"go/types"
 	"sort"
@@ -195,10 +196,11 @@ func (fe *FnExec) applyContract(st *State, in ssa.Instruction, ci calleeInfo, al
 		vars[fmt.Sprintf("$%d", i)] = Binding{all[i], ci.ptypes[i]}
 	}
 	// call-site ghost arguments and assertions of the caller's contract
-	for _, cg := range fe.C.CallGhosts {
+	for i, cg := range fe.C.CallGhosts {
 		if cg.Callee != ci.short || cg.Ordinal != ord || cg.Kind != "ghost" {
 			continue
 		}
+		fe.usedGhosts[i] = true
 		lenv := fe.localEnv(st, fe.entry)
 		v, t, err := lenv.eval(cg.Val)
 		if err != nil {
@@ -211,33 +213,8 @@ func (fe *FnExec) applyContract(st *State, in ssa.Instruction, ci calleeInfo, al
 			vars[gp] = Binding{Scalar{st.freshConst("ghost."+gp, SInt)}, tInt}
 		}
 	}
-	// call-site assertions of the caller's contract (in the caller's vocabulary,
-	// plus $i for the arguments and the ghost arguments by name)
-	nAssert := 0
-	for _, cg := range fe.C.CallGhosts {
-		if cg.Callee != ci.short || cg.Ordinal != ord || cg.Kind != "assert" {
-			continue
-		}
-		nAssert++
-		lenv := fe.localEnv(st, fe.entry)
-		for k, v := range vars {
-			if strings.HasPrefix(k, "$") {
-				lenv.vars[k] = v
-			}
-		}
-		for _, gp := range cc.GhostParams {
-			lenv.vars[gp] = vars[gp]
-		}
-		t, err := lenv.evalBool(cg.Val)
-		if err != nil {
-			fe.fail("call %s#%d assert (%s): %v", cg.Callee, cg.Ordinal, cg.Text, err)
-		}
-		tags := cg.Tags
-		if len(tags) == 0 {
-			tags = []string{"support"}
-		}
-		fe.assert(st, t, fmt.Sprintf("%s/assert#%d", site, nAssert), "requires", tags, cg.Text, in.Pos())
-	}
+	fe.callSiteAsserts(st, in, ci, ord, site, vars, cc.GhostParams)
+	fe.applyGiven(st, ci, ord, "given", vars)
 	pre := st.snapshot()
 	env := &Env{fe: fe, st: st, old: pre, vars: vars, pkg: cc.Pkg, qn: &fe.qn}
 	for i, cl := range cc.Requires {
@@ -363,8 +340,16 @@ func (fe *FnExec) applyContract(st *State, in ssa.Instruction, ci calleeInfo, al
 			}
 		}
 		st.callLog[fmt.Sprintf("%s#%d", ci.short, st.callCnt[ci.short])] = rec
+		st.callLog[fmt.Sprintf("%s@%d", ci.short, ord)] = rec
 	}
-	for _, cg := range fe.C.CallGhosts {
+	if res != nil {
+		vars["$result"] = vars["result"]
+	}
+	fe.applyGiven(st, ci, ord, "given_after", vars)
+	for i, cg := range fe.C.CallGhosts {
+		if cg.Callee == ci.short && cg.Ordinal == ord && cg.Kind == "bind" {
+			fe.usedGhosts[i] = true
+		}
 		if cg.Callee == ci.short && cg.Ordinal == ord && cg.Kind == "bind" && res != nil {
 			if ci.results.Len() == 1 {
 				st.binds[cg.Name] = Binding{res, ci.results.At(0).Type()}
@@ -374,6 +359,63 @@ func (fe *FnExec) applyContract(st *State, in ssa.Instruction, ci calleeInfo, al
 		}
 	}
 	return res
+}
+
+// callSiteAsserts: assertions of the caller's contract attached to a call site (in
+// the caller's vocabulary, plus $i for the arguments and ghost arguments by name).
+func (fe *FnExec) callSiteAsserts(st *State, in ssa.Instruction, ci calleeInfo, ord int, site string, vars map[string]Binding, ghostParams []string) {
+	nAssert := 0
+	for i, cg := range fe.C.CallGhosts {
+		if cg.Callee != ci.short || cg.Ordinal != ord || cg.Kind != "assert" {
+			continue
+		}
+		nAssert++
+		fe.usedGhosts[i] = true
+		lenv := fe.localEnv(st, fe.entry)
+		for k, v := range vars {
+			if strings.HasPrefix(k, "$") {
+				lenv.vars[k] = v
+			}
+		}
+		for _, gp := range ghostParams {
+			lenv.vars[gp] = vars[gp]
+		}
+		t, err := lenv.evalBool(cg.Val)
+		if err != nil {
+			fe.fail("call %s#%d assert (%s): %v", cg.Callee, cg.Ordinal, cg.Text, err)
+		}
+		tags := cg.Tags
+		if len(tags) == 0 {
+			tags = []string{"support"}
+		}
+		fe.assert(st, t, fmt.Sprintf("%s/assert#%d", site, nAssert), "requires", tags, cg.Text, in.Pos())
+	}
+}
+
+// applyGiven: input-validity assumptions stated by the caller's contract at a call
+// site ("call f#k given e"). They are assumptions, listed as such in the evidence.
+func (fe *FnExec) applyGiven(st *State, ci calleeInfo, ord int, kind string, vars map[string]Binding) {
+	for i, cg := range fe.C.CallGhosts {
+		if cg.Callee != ci.short || cg.Ordinal != ord || cg.Kind != kind {
+			continue
+		}
+		fe.usedGhosts[i] = true
+		lenv := fe.localEnv(st, fe.entry)
+		for k, v := range vars {
+			if strings.HasPrefix(k, "$") {
+				lenv.vars[k] = v
+			}
+		}
+		t, err := lenv.evalBool(cg.Val)
+		if err != nil {
+			fe.fail("call %s#%d %s (%s): %v", cg.Callee, cg.Ordinal, kind, cg.Text, err)
+		}
+		if os.Getenv("GOVC_DEBUG") != "" {
+			fmt.Fprintf(os.Stderr, "GIVEN %s -> %s\n", cg.Text, truncate(t.S, 300))
+		}
+		st.assume(t, "GIVEN (assumed input validity): "+cg.Text)
+		fe.noteAbstracted("assumed at " + shortFn(fe.Fn.String()) + " call " + cg.Callee + ": " + cg.Text)
+	}
 }
 
 // havocEntries forgets exactly the listed locations.
@@ -422,6 +464,12 @@ func (fe *FnExec) havocEntries(st *State, ents []modEntry, why string) {
 
 // havocCall: permissive treatment of an un-contracted call (assumption A5).
 func (fe *FnExec) havocCall(st *State, in ssa.Instruction, ci calleeInfo, all []SVal) SVal {
+	hv := map[string]Binding{}
+	for i := range all {
+		hv[fmt.Sprintf("$%d", i)] = Binding{all[i], ci.ptypes[i]}
+	}
+	fe.callSiteAsserts(st, in, ci, fe.callOrd[in], fmt.Sprintf("call:%s#%d", ci.short, fe.callOrd[in]), hv, nil)
+	fe.applyGiven(st, ci, fe.callOrd[in], "given", hv)
 	preCall := st.snapshot()
 	for i, a := range all {
 		fe.havocReachable(st, a, ci.ptypes[i])
@@ -431,6 +479,13 @@ func (fe *FnExec) havocCall(st *State, in ssa.Instruction, ci calleeInfo, all []
 	st.now = n
 	fe.noteAbstracted(ci.desc)
 	st.bumpMaps()
+	for _, a := range st.escaped {
+		if _, ok := st.locals[a]; ok {
+			if v, err := st.freshValue("esc."+a.Comment, a.Type().(*types.Pointer).Elem()); err == nil {
+				st.locals[a] = v
+			}
+		}
+	}
 	var res SVal
 	var resT types.Type
 	switch ci.results.Len() {
@@ -448,12 +503,20 @@ func (fe *FnExec) havocCall(st *State, in ssa.Instruction, ci calleeInfo, all []
 		}
 		res, resT = v, ci.results
 	}
+	if res != nil {
+		hv["$result"] = Binding{res, resT}
+	}
+	fe.applyGiven(st, ci, fe.callOrd[in], "given_after", hv)
 	st.countCall(ci.short)
 	st.callSeq++
 	st.callLog[fmt.Sprintf("%s#%d", ci.short, st.callCnt[ci.short])] = callRec{pre: preCall, seq: st.callSeq, args: all, argT: ci.ptypes, res: res, resT: resT}
-	for _, cg := range fe.C.CallGhosts {
-		if cg.Callee == ci.short && cg.Ordinal == fe.callOrd[in] && cg.Kind == "bind" && res != nil {
-			st.binds[cg.Name] = Binding{res, resT}
+	st.callLog[fmt.Sprintf("%s@%d", ci.short, fe.callOrd[in])] = st.callLog[fmt.Sprintf("%s#%d", ci.short, st.callCnt[ci.short])]
+	for i, cg := range fe.C.CallGhosts {
+		if cg.Callee == ci.short && cg.Ordinal == fe.callOrd[in] && cg.Kind == "bind" {
+			fe.usedGhosts[i] = true
+			if res != nil {
+				st.binds[cg.Name] = Binding{res, resT}
+			}
 		}
 	}
 	return res
@@ -472,13 +535,13 @@ func (fe *FnExec) havocReachable(st *State, v SVal, t types.Type) {
 	switch x := v.(type) {
 	case Scalar:
 		if pt, ok := t.Underlying().(*types.Pointer); ok && isStructByValue(pt.Elem()) {
-			keys := map[string]*Sort{}
-			fe.keysOfStruct(pt.Elem(), keys)
-			for _, k := range sortedKeys(keys) {
-				arr := st.heapArr(k, keys[k])
-				nv := st.freshConst("hv."+k, arr.Sort.Elem)
-				st.setHeap(k, Store(arr, x.T, nv))
+			var ents []modEntry
+			s := pt.Elem().Underlying().(*types.Struct)
+			owner := typeKey(pt.Elem())
+			for i := 0; i < s.NumFields(); i++ {
+				fe.addModField(st, &ents, x.T, owner, s.Field(i).Name(), s.Field(i).Type(), "havoc")
 			}
+			fe.havocEntries(st, ents, "un-contracted call")
 		}
 	case SliceV:
 		if sl, ok := t.Underlying().(*types.Slice); ok && !isStructByValue(sl.Elem()) {
@@ -736,7 +799,7 @@ func (fe *FnExec) doReturn(st *State, x *ssa.Return) {
 }
 
 func internalClause(text string) bool {
-	return strings.Contains(text, "ncalls(") || strings.Contains(text, "callarg(") || strings.Contains(text, "callres(")
+	return strings.Contains(text, "ncalls(") || strings.Contains(text, "callarg(") || strings.Contains(text, "callres(") || strings.Contains(text, "happened(") || strings.Contains(text, "callseq(") || strings.Contains(text, "sitearg(") || strings.Contains(text, "siteres(") || strings.Contains(text, "sitehappened(")
 }
 
 var _ = sort.Strings
